@@ -170,4 +170,164 @@ Definition apply_pair (op : T -> T -> T) (f : T) (idx : list nat) (Y G : list (l
 Definition decorate_grads (f : T) (idx : list nat) (Y : list (list T)) (ml cl : list (nat * nat)) (G : list (list T)) : list (list T) :=
   fold_left (apply_pair (nsub o) f idx Y) ml (fold_left (apply_pair (nadd o) f idx Y) cl G).
 End Grads.
+
+(* ================================================================== regenerated rules
+   The same algorithms, parameterised by the "holes" that translator/tr_mlcl.py re-reads from the AST of
+   gemclus/mlcl.py on every build (coq/Gen/MlclRules.v::mlcl_rules): which list a loop iterates, which
+   columns are read, comparison operators and constants (normalised), signs, operands, order of updates.
+   [documented_rules] below is the hand-written golden copy; Proofs/MlclGen.v proves that the regenerated
+   rules are the documented ones and that the parameterised model at these rules IS the hand model above
+   ([valid], [accept_raw], [decorate_grads] — the entry points the driver extracts, unchanged).
+   The parameterised functions are meant to be read at (or next to) the documented values: a hole whose
+   other values have no modelled meaning is carried as data only (said at the field). *)
+Inductive which : Type := WML | WCL.            (* must_link / cannot_link *)
+Inductive slot : Type := SI | SJ.               (* first / second element of the pair (or combination) at hand *)
+(* a test `len(x) <op> k`, normalised by the translator: n < k, n >= k, n == k (k > 0), n != k (k > 0) *)
+Inductive ncmp : Type := NLt (k : nat) | NGe (k : nat) | NEq (k : nat) | NNe (k : nat).
+Definition ncmp_holds (c : ncmp) (n : nat) : bool :=
+  match c with NLt k => n <? k | NGe k => k <=? n | NEq k => n =? k | NNe k => negb (n =? k) end.
+Definition pick {A} (w : which) (ml cl : A) : A := match w with WML => ml | WCL => cl end.
+(* pair[c] / x[:, c] *)
+Definition col (c : nat) (p : nat * nat) : nat := match c with 0 => fst p | 1 => snd p | _ => 0 end.
+Definition sel (s : slot) (p : nat * nat) : nat := match s with SI => fst p | SJ => snd p end.
+
+(* ---- _check_linking_constraint, per argument ---- *)
+Record ArgRules : Type := {
+  a_empty : ncmp;          (* `if hasattr(x, "__len__") and len(x) <op> k: x = None` *)
+  a_2d : bool;             (* check_array(ensure_2d=...)   — data only: 1-D inputs are rejected either way *)
+  a_minfeat : nat;         (* check_array(ensure_min_features=...) *)
+  a_self : nat * nat       (* `if np.any(x[:, a] == x[:, b]): raise ValueError` *)
+}.
+Record LinkRules : Type := {
+  lr_ml : ArgRules; lr_cl : ArgRules;
+  lr_guard_and : bool;     (* `if <test on len(must_link)> and/or <test on len(cannot_link)>: _check_structural_constraint(..)` *)
+  lr_guard_ml : ncmp; lr_guard_cl : ncmp
+}.
+(* ---- _check_structural_constraint ---- *)
+Record StructRules : Type := {
+  s_uniq_list : which; s_uniq_cols : list nat;    (* unique_indices = [p[c] for p in L] + [p[c'] for p in L] + ... *)
+  s_edge_list : which; s_edge_cols : nat * nat;   (* for pair in L: i, j = unique_indices.index(pair[a]), unique_indices.index(pair[b]) *)
+  s_edge_entries : list (slot * slot);            (* connection_matrix[i, j] = connection_matrix[j, i] = 1 — data only (the BFS is undirected) *)
+  s_directed : bool;                              (* breadth_first_order(..., directed=...) — data only *)
+  s_loop : ncmp;                                  (* while len(samples_to_explore) <op> k *)
+  s_start : nat;                                  (* breadth_first_order(connection_matrix, samples_to_explore[k], ...) *)
+  s_map_back : bool;                              (* component = [unique_indices[node] for node in reacheable_nodes] (true) / the raw nodes (false) *)
+  s_comb_r : nat;                                 (* itertools.combinations(component, r=...) — data only ([combos] is r = 2) *)
+  s_cl_list : which;                              (* for pair in L' *)
+  s_orients : list (nat * nat)                    (* the disjuncts (i == pair[a] and j == pair[b]) of the raising test, sorted *)
+}.
+(* ---- decorate_grads ---- *)
+Record UpdRule : Type := {
+  u_target : slot;         (* gradient[pos of slot] ... *)
+  u_minus : bool;          (* ... -= (true) / += (false) ... *)
+  u_scaled : bool;         (* ... factor * (..) (true) / (..) alone (false) *)
+  u_lhs : slot; u_rhs : slot   (* ... (y_pred[pos of lhs] - y_pred[pos of rhs]) *)
+}.
+Record LoopRule : Type := {
+  l_list : which;          (* for (i, j) in L *)
+  l_member_and : bool;     (* `if i in last_indices and/or j in last_indices` *)
+  l_member : list slot;    (* which of i, j are tested *)
+  l_updates : list UpdRule (* the update lines, in order, positions resolved through last_indices.index(..) *)
+}.
+Record MlclRules : Type := { mr_link : LinkRules; mr_struct : StructRules; mr_grads : list LoopRule }.
+
+Definition documented_arg : ArgRules := {| a_empty := NLt 1; a_2d := true; a_minfeat := 2; a_self := (0, 1) |}.
+Definition documented_rules : MlclRules := {|
+  mr_link := {| lr_ml := documented_arg; lr_cl := documented_arg; lr_guard_and := true; lr_guard_ml := NGe 1; lr_guard_cl := NGe 1 |};
+  mr_struct := {| s_uniq_list := WML; s_uniq_cols := [0; 1]; s_edge_list := WML; s_edge_cols := (0, 1);
+                  s_edge_entries := [(SI, SJ); (SJ, SI)]; s_directed := false; s_loop := NGe 1; s_start := 0;
+                  s_map_back := true; s_comb_r := 2; s_cl_list := WCL; s_orients := [(0, 1); (1, 0)] |};
+  mr_grads := [ {| l_list := WCL; l_member_and := true; l_member := [SI; SJ];
+                   l_updates := [ {| u_target := SI; u_minus := false; u_scaled := true; u_lhs := SI; u_rhs := SJ |};
+                                  {| u_target := SJ; u_minus := false; u_scaled := true; u_lhs := SJ; u_rhs := SI |} ] |};
+                {| l_list := WML; l_member_and := true; l_member := [SI; SJ];
+                   l_updates := [ {| u_target := SI; u_minus := true; u_scaled := true; u_lhs := SI; u_rhs := SJ |};
+                                  {| u_target := SJ; u_minus := true; u_scaled := true; u_lhs := SJ; u_rhs := SI |} ] |} ]
+|}.
+
+(* ---- the parameterised validation ---- *)
+Definition no_self_r (ab : nat * nat) (l : list (nat * nat)) : bool :=
+  forallb (fun p => negb (col (fst ab) p =? col (snd ab) p)) l.
+
+Definition uniq_r (S : StructRules) (ml cl : list (nat * nat)) : list nat :=
+  dedup (flat_map (fun c => map (col c) (pick (s_uniq_list S) ml cl)) (s_uniq_cols S)).
+Definition pos_edges_r (S : StructRules) (U : list nat) (ml cl : list (nat * nat)) : list (nat * nat) :=
+  map (fun p => (index (col (fst (s_edge_cols S)) p) U, index (col (snd (s_edge_cols S)) p) U)) (pick (s_edge_list S) ml cl).
+Definition hits_r (S : StructRules) (cl : list (nat * nat)) (ij : nat * nat) : bool :=
+  existsb (fun p => existsb (fun ab => (fst ij =? col (fst ab) p) && (snd ij =? col (snd ab) p)) (s_orients S)) cl.
+
+Fixpoint explore_r (S : StructRules) (fuel : nat) (U : list nat) (lab : nat -> nat) (cl : list (nat * nat)) (todo : list nat) : option bool :=
+  if ncmp_holds (s_loop S) (length todo) then
+    match fuel with
+    | O => None
+    | Datatypes.S f =>
+      let s := nth (s_start S) todo 0 in
+      let nodes := reach (length U) lab s in
+      let todo' := fold_left (fun t node => remove_first node t) nodes todo in
+      let component := if s_map_back S then map (fun node => nth node U 0) nodes else nodes in
+      if existsb (hits_r S cl) (combos component) then Some false else explore_r S f U lab cl todo'
+    end
+  else Some true.
+
+Definition structural_r (S : StructRules) (ml cl : list (nat * nat)) : option bool :=
+  let U := uniq_r S ml cl in
+  explore_r S (length U) U (label (pos_edges_r S U ml cl)) (pick (s_cl_list S) ml cl) (seq 0 (length U)).
+
+Definition valid_r (R : MlclRules) (ml cl : list (nat * nat)) : bool :=
+  let L := mr_link R in
+  no_self_r (a_self (lr_ml L)) ml && no_self_r (a_self (lr_cl L)) cl &&
+  (if (if lr_guard_and L then andb else orb) (ncmp_holds (lr_guard_ml L) (length ml)) (ncmp_holds (lr_guard_cl L) (length cl))
+   then match structural_r (mr_struct R) ml cl with Some b => b | None => false end
+   else true).
+
+Definition shape_of_r (A : ArgRules) (r : raw) : shape :=
+  match r with
+  | RNone => ShAbsent
+  | RScalar _ => ShReject
+  | RFlat l => if ncmp_holds (a_empty A) (length l) then ShAbsent else ShReject
+  | RRows rows =>
+      if ncmp_holds (a_empty A) (length rows) then ShAbsent else
+      match rows with
+      | [] => ShReject
+      | r0 :: rs => let w := length r0 in
+                    if forallb (fun r => length r =? w) rs && (a_minfeat A <=? w)
+                    then ShPairs w (map first2 (r0 :: rs)) else ShReject
+      end
+  end.
+
+Definition accept_raw_r (R : MlclRules) (rml rcl : raw) : bool :=
+  match shape_of_r (lr_ml (mr_link R)) rml, shape_of_r (lr_cl (mr_link R)) rcl with
+  | ShReject, _ => false
+  | _, ShReject => false
+  | ShAbsent, ShAbsent => valid_r R [] []
+  | ShAbsent, ShPairs _ cl => valid_r R [] cl
+  | ShPairs _ ml, ShAbsent => valid_r R ml []
+  | ShPairs _ ml, ShPairs w cl => if w =? 2 then valid_r R ml cl else false
+  end.
+
+(* ---- the parameterised decoration ---- *)
+Section GradsR.
+Context {T : Type} (o : NumOps T).
+
+Fixpoint upd_row_g (op : T -> T -> T) (sc : T -> T) (g yi yj : list T) : list T :=
+  match g, yi, yj with
+  | x :: g', a :: yi', b :: yj' => op x (sc (nsub o a b)) :: upd_row_g op sc g' yi' yj'
+  | _, _, _ => []
+  end.
+
+Definition apply_upd (f : T) (idx : list nat) (Y : list (list T)) (p : nat * nat) (G : list (list T)) (u : UpdRule) : list (list T) :=
+  let pos s := index (sel s p) idx in
+  set_nth (pos (u_target u))
+          (upd_row_g (if u_minus u then nsub o else nadd o) (if u_scaled u then nmul o f else fun x => x)
+                     (nth (pos (u_target u)) G []) (nth (pos (u_lhs u)) Y []) (nth (pos (u_rhs u)) Y [])) G.
+
+Definition apply_pair_r (L : LoopRule) (f : T) (idx : list nat) (Y G : list (list T)) (p : nat * nat) : list (list T) :=
+  let inb s := mem (sel s p) idx in
+  if (if l_member_and L then forallb inb (l_member L) else existsb inb (l_member L))
+  then fold_left (apply_upd f idx Y p) (l_updates L) G
+  else G.
+
+Definition decorate_grads_r (loops : list LoopRule) (f : T) (idx : list nat) (Y : list (list T)) (ml cl : list (nat * nat)) (G : list (list T)) : list (list T) :=
+  fold_left (fun G L => fold_left (apply_pair_r L f idx Y) (pick (l_list L) ml cl) G) loops G.
+End GradsR.
 (* EXTRACT: valid structural accept_raw shape_of uniq label pos_edges index decorate_grads *)
